@@ -6,8 +6,8 @@ package ristretto
 // Inside a synctest bubble (fake clock): writers outpace an applier that spends fake time in Config.Cost, so the write
 // buffer is never empty when the applier finishes an item. An entry with a TTL expires meanwhile. Once the tick that
 // makes its bucket due has fired, every further item the applier takes is one more occasion on which the runtime's
-// select could have served the ticker instead; after 80 such items without the entry being reclaimed the check fails
-// (on a fair select the chance of that is 2^-80, far below anything else that could go wrong on the machine).
+// select could have served the ticker instead; after 20000 such items without the entry being reclaimed the check fails
+// (with one fair select per item the chance of that is 2^-20000; with one select per batch of 256 items still 2^-78).
 // No wall-clock time enters the verdict.
 
 import (
@@ -20,6 +20,12 @@ import (
 
 	"pgregory.net/rapid"
 )
+
+// vfBacklogItems: how many further items the applier may take after the tick before the check gives up on "eventually".
+// Large on purpose: an applier that takes a bounded batch of items per wake-up (16, 64, 256 ...) still passes the
+// ticker every batch; only an applier that never looks at the ticker while there is a backlog runs into this bound.
+// It costs nothing when the entries are reclaimed, because the wait ends then.
+const vfBacklogItems = 20000
 
 type vfBacklogCase struct {
 	Writers       int  `json:"writers"`
@@ -113,8 +119,8 @@ func vfRunBacklog(c *vfBacklogCase) (st vfBacklogStats, sig, msg string) {
 		}
 		return n
 	}
-	deadline := time.Now().Add(20 * time.Second)
-	for applied.Load()-at < 80 && time.Now().Before(deadline) && reclaimed() < accepted {
+	deadline := time.Now().Add(150 * time.Second)
+	for applied.Load()-at < vfBacklogItems && time.Now().Before(deadline) && reclaimed() < accepted {
 		st.samples++
 		if len(cache.setBuf) > 0 {
 			st.backlogSeen++
@@ -123,7 +129,7 @@ func vfRunBacklog(c *vfBacklogCase) (st vfBacklogStats, sig, msg string) {
 	}
 	st.itemsAfterDue = applied.Load() - at
 	st.reclaimed = reclaimed()
-	st.processingWrite = st.itemsAfterDue >= 80
+	st.processingWrite = st.itemsAfterDue >= vfBacklogItems
 	st.accepted = accepted
 	if st.reclaimed < accepted && st.processingWrite {
 		sig = "C14/expired-entry-not-reclaimed-while-writes-are-processed"
